@@ -96,6 +96,15 @@ func loadFindings(root string) []finding {
 	return out
 }
 
+// evidenceDir: /verif/evidence, or a scratch directory when the check is being
+// run against a deliberately broken tree (seeded changes, mutants).
+func evidenceDir(root string) string {
+	if d := os.Getenv("VERIF_EVIDENCE_DIR"); d != "" {
+		return d
+	}
+	return filepath.Join(root, "evidence")
+}
+
 func goEnv() []string {
 	env := os.Environ()
 	env = append(env, "GOFLAGS=-mod=mod", "GOPROXY=off", "GOSUMDB=off", "GOTOOLCHAIN=local")
@@ -364,8 +373,8 @@ func DriverMain(root string, p *Property, tier string, seed uint64) int {
 		Sets: map[string]map[string]int{}, Nontrivial: map[string]struct{}{}, Digests: map[string]string{}}
 	os.RemoveAll(workDir(root, p.ID))
 	os.MkdirAll(workDir(root, p.ID), 0o755)
-	os.MkdirAll(filepath.Join(root, "evidence"), 0o755)
-	os.Remove(filepath.Join(root, "evidence", p.ID+".json"))
+	os.MkdirAll(evidenceDir(root), 0o755)
+	os.Remove(filepath.Join(evidenceDir(root), p.ID+".json"))
 	os.RemoveAll(filepath.Join(root, "replays", p.ID))
 
 	ncpu := runtime.NumCPU()
@@ -540,7 +549,7 @@ func (d *Driver) finish() int {
 		"violations": len(unlisted),
 	}
 	b, _ := json.MarshalIndent(ev, "", " ")
-	os.WriteFile(filepath.Join(d.Root, "evidence", p.ID+".json"), b, 0o644)
+	os.WriteFile(filepath.Join(evidenceDir(d.Root), p.ID+".json"), b, 0o644)
 
 	// report
 	fmt.Printf("property %s tier=%s seed=%d cases=%d distinct_nontrivial=%d monitor_events=%d wall=%.1fs\n",
